@@ -456,3 +456,74 @@ def lookahead_horizon(ctx):
     else:
         ctx.violation(key, '-', 'fast mode reserve %d is below MATCH_LEN_MAX - 1 = %d: the match at the next position can be cut short by the end of '
                       'the current input' % (fa, mlm - 1))
+
+
+# --------------------------------------------------------------------------- MOVE-KEEPS-HISTORY
+
+def _lin_eval(e, env):
+    """Evaluate a provenance expression as an integer with fields valued by env(name); None if not linear/unknown."""
+    if not isinstance(e, tuple):
+        return None
+    k = e[0]
+    if k == 'const' and isinstance(e[2], int):
+        return e[2]
+    if k == 'cast':
+        return _lin_eval(e[-1], env)
+    if k == 'field':
+        if isinstance(e[1], tuple) and e[1][0] == 'bin' and e[1][1].endswith('WithOverflow') and str(e[2]) == '0':
+            return _lin_eval(('bin', e[1][1][:-len('WithOverflow')], e[1][2], e[1][3]), env)
+        sf = self_field_of(e)
+        if sf and len(sf) == 1:
+            return env(sf[0])
+        return None
+    if k == 'bin':
+        a, b = _lin_eval(e[2], env), _lin_eval(e[3], env)
+        if a is None or b is None:
+            return None
+        if e[1] == 'Add': return a + b
+        if e[1] == 'Sub': return a - b
+        return None
+    return None
+
+
+@rule('MOVE-KEEPS-HISTORY', ['C15', 'C01'], floor=1)
+def move_keeps_history(ctx):
+    """When the LZ encoder window is moved, the bytes kept in front of the read position are the history matches may
+    reach into: `extend_match` and the match finders read `buf[read_pos - dist ..]` without bounds checks (the
+    non-local precondition of the unsafe helpers). The move offset must therefore be at most
+    `read_pos + 1 - keep_size_before`; the code obtains it by masking that value with the alignment mask -2^k, which
+    rounds DOWN. The rule checks the shape: move_offset = (read_pos + c - keep_size_before) & (-2^k) with c <= 1.
+    Rounding up (c = ALIGN) keeps up to ALIGN - 1 bytes too few, and a match at near-maximal distance right after a
+    move reads in front of the buffer."""
+    F = ctx.facts
+    fs = [f for f in F.fns if f.key == 'LZEncoderData::move_window']
+    if not fs:
+        ctx.anchor_missing('LZEncoderData::move_window')
+        return
+    f = fs[0]
+    prov = Prov(f)
+    key = '%s:offset-rounded-down-from-read_pos+1-keep_size_before' % f.key
+    cands = []
+    for b in sorted(f.reachable):
+        for si, s in enumerate(f.blocks[b]['stmts']):
+            if s['k'] == 'assign' and s['rv']['r'] == 'bin' and s['rv']['op'] == 'BitAnd':
+                e = prov.rvalue(s['rv'], 0, '%d:%d' % (b, si))
+                for x, m in ((e[2], e[3]), (e[3], e[2])):
+                    if m[0] == 'const' and isinstance(m[2], int) and m[2] < 0 and (-m[2]) & (-m[2] - 1) == 0:
+                        cands.append((b, si, x, m[2]))
+    if not cands:
+        ctx.violation(key, f.loc(0), 'cannot find `(..) & -2^k` (the aligned move offset): anchor lost (fail closed)')
+        return
+    b, si, x, mask = cands[0]
+    def at(rp, kb):
+        return _lin_eval(x, lambda name: {'read_pos': rp, 'keep_size_before': kb}.get(name))
+    c0, c_rp, c_kb = at(0, 0), at(1, 0), at(0, 1)
+    if None in (c0, c_rp, c_kb):
+        ctx.violation(key, f.loc(b, si), 'the masked expression %s is not linear in read_pos and keep_size_before: not decided (fail closed)' % expr_str(x)[:80])
+        return
+    if c_rp - c0 == 1 and c_kb - c0 == -1 and c0 <= 1:
+        ctx.ok(key, f.loc(b, si), 'move_offset = (read_pos %+d - keep_size_before) & %d: rounded down, at least keep_size_before - 1 bytes stay in front of read_pos' % (c0, mask))
+    else:
+        ctx.violation(key, f.loc(b, si), 'move_offset = (%d*read_pos %+d %+d*keep_size_before) & %d can exceed read_pos + 1 - keep_size_before: fewer than '
+                      'keep_size_before bytes of history are kept, and the unchecked reads of extend_match / the match finders at distance close to the '
+                      'dictionary size start in front of the buffer' % (c_rp - c0, c0, c_kb - c0, mask))
